@@ -75,10 +75,11 @@ type SimReader struct {
 	Scribbled   int   // reads after which the unused part of p was overwritten
 	Reads       int
 
-	stdFile  *os.File      // Std == "os.File" (unlinked temp file; closed by reuse)
-	stdBuf   *bytes.Buffer // Std == "bytes.Buffer"
-	stdSlice []byte        // Std == "bytes.Reader": the caller's slice under the reader
-	Reused   bool          // the caller reused the reader's storage after the parse
+	stdFile      *os.File      // Std == "os.File" (unlinked temp file; closed by reuse)
+	stdBuf       *bytes.Buffer // Std == "bytes.Buffer"
+	stdSlice     []byte        // Std == "bytes.Reader": the caller's slice under the reader
+	Reused       bool          // the caller reused the reader's storage after the parse
+	FileFallback bool          // no temp file could be created; a bytes.Reader stood in
 }
 
 func newSimReader(doc []byte, scn *ReaderScn, seq *int) *SimReader {
@@ -279,11 +280,21 @@ func (r *SimReader) asReader() io.Reader {
 			return br
 		default:
 			f, err := os.CreateTemp(os.Getenv("VERIF_SCRATCH_DIR"), "simfile")
-			if err != nil {
-				panic("harness: temp file: " + err.Error())
+			if err == nil {
+				os.Remove(f.Name())
+				if _, werr := f.Write(backing); werr != nil {
+					f.Close()
+					err = werr
+				}
 			}
-			os.Remove(f.Name())
-			f.Write(backing)
+			if err != nil {
+				// no scratch space: never the library's fault; fall back to
+				// the in-memory positioned reader
+				r.FileFallback = true
+				br := bytes.NewReader(backing)
+				br.Seek(int64(len(prefix)), io.SeekStart)
+				return br
+			}
 			f.Seek(int64(len(prefix)), io.SeekStart)
 			r.stdFile = f
 			return f
